@@ -155,14 +155,7 @@ def module_closure(root_module):
 def leanchecker(pid):
     """thorough tier: Lean's independent re-checker replays the compiled declarations of the property's theorem file and of
     every TCV module it imports.  Cached by source hash."""
-    mods = module_closure(f'TCV.Props.{pid}')
-    for n in theorem_table().get(pid, []):
-        # theorems registered from lemma files
-        parts = n.split('.')
-        for k in range(len(parts) - 1, 1, -1):
-            cand = '.'.join(parts[:k])
-            for pre in ('TCV.Lemmas.', 'TCV.Props.', 'TCV.Model.'):
-                pass
+    mods = sorted({m for f in (LEAN / 'TCV' / 'Props').glob(f'{pid}*.lean') for m in module_closure(f'TCV.Props.{f.stem}')})
     lock_path = LEAN / '.build.lock'
     with open(lock_path, 'w') as lk:
         fcntl.flock(lk, fcntl.LOCK_EX)
